@@ -1349,3 +1349,280 @@ Proof.
   exists recs. split; [exact Hrec|]. intros rr Hin.
   destruct (rr_hs_changed rr) eqn:Er; [|reflexivity]. exfalso. apply Hn. right. right. eauto.
 Qed.
+
+(* ------------------------------------------------------------------ *)
+(* Lifetime level: the history of handed-out committed entries.
+
+   [op] lists every RawNode API call of the model; [exec] runs one and reports
+   what the application is handed for apply: the committed entries of the
+   Ready / LightReady and, for a Ready, the index of a (non-empty) snapshot. *)
+
+Inductive op :=
+| OStep (m : msg) | OTick | OCampaign | OPropose (ctx data : list N)
+| OProposeCC (ctx data : list N) (ty ccinfo : N) | OApplyCC (cc : ccv2) | OPing
+| OReady | OAdvance (rd : ready) | OAdvanceAppend (rd : ready) | OAdvanceAppendAsync (rd : ready)
+| OOnPersistReady (number : N) | OAdvanceApply | OAdvanceApplyTo (a : N)
+| OReportUnreachable (id : N) | OReportSnapshot (id : N) (failure : bool)
+| ORequestSnapshot | OTransferLeader (id : N) | OReadIndex (ctx : list N).
+
+Definition out := (option N * list entry)%type.
+Definition no_out : out := (None, []).
+
+Definition quiet {A} (x : Res (rawnode * A)) : Res (rawnode * out) :=
+  y <- x ;; Ok (fst y, no_out).
+Definition quiet1 (x : Res rawnode) : Res (rawnode * out) :=
+  y <- x ;; Ok (y, no_out).
+
+Definition exec (n : rawnode) (o : op) : Res (rawnode * out) :=
+  match o with
+  | OStep m => quiet (rn_step n m)
+  | OTick => quiet (rn_tick n)
+  | OCampaign => quiet (rn_campaign n)
+  | OPropose c d => quiet (rn_propose n c d)
+  | OProposeCC c d ty ci => quiet (rn_propose_conf_change n c d ty ci)
+  | OApplyCC cc => quiet (rn_apply_conf_change n cc)
+  | OPing => quiet1 (rn_ping n)
+  | OReady =>
+      y <- rn_ready n ;;
+      let rd := snd y in
+      Ok (fst y, (if s_index (rd_snapshot rd) =? 0 then None else Some (s_index (rd_snapshot rd)),
+                  lr_committed_entries (rd_light rd)))
+  | OAdvance rd => y <- rn_advance n rd ;; Ok (fst y, (None, lr_committed_entries (snd y)))
+  | OAdvanceAppend rd => y <- rn_advance_append n rd ;; Ok (fst y, (None, lr_committed_entries (snd y)))
+  | OAdvanceAppendAsync rd => quiet1 (rn_advance_append_async n rd)
+  | OOnPersistReady k => quiet1 (rn_on_persist_ready n k)
+  | OAdvanceApply => quiet1 (rn_advance_apply n)
+  | OAdvanceApplyTo a => quiet1 (rn_advance_apply_to n a)
+  | OReportUnreachable id => quiet1 (rn_report_unreachable n id)
+  | OReportSnapshot id f => quiet1 (rn_report_snapshot n id f)
+  | ORequestSnapshot => quiet (rn_request_snapshot n)
+  | OTransferLeader id => quiet1 (rn_transfer_leader n id)
+  | OReadIndex c => quiet1 (rn_read_index n c)
+  end.
+
+(* calls that hand nothing out leave commit_since_index alone *)
+Lemma lift_csi n x n' : lift n x = Ok n' -> rn_commit_since_index n' = rn_commit_since_index n.
+Proof. unfold lift. intros H. inv_bind H. inversion H; reflexivity. Qed.
+
+Lemma lift2_csi n x n' c : lift2 n x = Ok (n', c) -> rn_commit_since_index n' = rn_commit_since_index n.
+Proof. unfold lift2. intros H. inv_bind H. inversion H; reflexivity. Qed.
+
+Lemma commit_ready_csi n rd n' :
+  commit_ready n rd = Ok n' -> rn_commit_since_index n' = rn_commit_since_index n.
+Proof.
+  intros H. destruct (commit_ready_stabilises _ _ _ H) as (_ & _ & _ & ->). cbn.
+  apply (commit_prev_frame n rd).
+Qed.
+
+Lemma on_persist_ready_csi n k n' :
+  rn_on_persist_ready n k = Ok n' -> rn_commit_since_index n' = rn_commit_since_index n.
+Proof.
+  intros H. destruct (on_persist_ready_spec _ _ _ H) as (i & t & si & r1 & _ & _ & _ & _ & _ & _ & _ & E).
+  exact E.
+Qed.
+
+Lemma quiet_ops_csi n o n' ot :
+  match o with OReady | OAdvance _ | OAdvanceAppend _ => False | _ => True end ->
+  exec n o = Ok (n', ot) ->
+  ot = no_out /\ rn_commit_since_index n' = rn_commit_since_index n.
+Proof.
+  intros Ho H. destruct o; try contradiction; cbn [exec] in H; unfold quiet, quiet1 in H;
+    inv_bind H; inversion H; subst; clear H; (split; [reflexivity|]).
+  - unfold rn_step in Hx. destruct (is_local_msg (m_type m)); [inversion Hx; reflexivity|].
+    match type of Hx with (if ?c then _ else _) = _ => destruct c end;
+      [destruct x; eapply lift2_csi; exact Hx|inversion Hx; reflexivity].
+  - unfold rn_tick in Hx. inv_bind Hx. inversion Hx; reflexivity.
+  - destruct x; eapply lift2_csi; exact Hx.
+  - destruct x; eapply lift2_csi; exact Hx.
+  - destruct x; eapply lift2_csi; exact Hx.
+  - unfold rn_apply_conf_change in Hx. inv_bind Hx. inversion Hx; reflexivity.
+  - eapply lift_csi; exact Hx.
+  - eapply commit_ready_csi; exact Hx.
+  - eapply on_persist_ready_csi; exact Hx.
+  - eapply lift_csi; exact Hx.
+  - eapply lift_csi; exact Hx.
+  - unfold rn_report_unreachable in Hx. inv_bind Hx. inversion Hx; reflexivity.
+  - unfold rn_report_snapshot in Hx. inv_bind Hx. inversion Hx; reflexivity.
+  - destruct x; eapply lift2_csi; exact Hx.
+  - unfold rn_transfer_leader in Hx. inv_bind Hx. inversion Hx; reflexivity.
+  - unfold rn_read_index in Hx. inv_bind Hx. inversion Hx; reflexivity.
+Qed.
+
+(* the assumption under which a batch is cut out of the logical log:
+   the RaftLog representation invariant (C14), commit_since_index a proper u64,
+   and nothing compacted beyond what was already handed out *)
+Definition handout_pre (l : raft_log) (since : N) : Prop :=
+  (exists rw, RepInv rw l) /\ since < u64_max /\ ll_first (abs l) <= since + 1.
+
+Lemma last_map_index (l : list entry) :
+  l <> [] -> e_index (List.last l entry_default) = List.last (map e_index l) 0.
+Proof.
+  induction l as [|a [|b l'] IH]; intros H; [congruence|reflexivity|].
+  change (List.last (a :: b :: l') entry_default) with (List.last (b :: l') entry_default).
+  change (map e_index (a :: b :: l')) with (e_index a :: map e_index (b :: l')).
+  change (List.last (e_index a :: map e_index (b :: l')) 0)
+    with (List.last (map e_index (b :: l')) 0).
+  apply IH. discriminate.
+Qed.
+
+(* the core step: a batch starts right after the last handed-out index and moves
+   commit_since_index to its last entry *)
+Theorem handout_step n n' lr :
+  handout_pre (r_log (rn_raft n)) (rn_commit_since_index n) ->
+  gen_light_ready n = Ok (n', lr) ->
+  contiguous_from (rn_commit_since_index n + 1) (lr_committed_entries lr)
+  /\ rn_commit_since_index n' = rn_commit_since_index n + N.of_nat (length (lr_committed_entries lr))
+  /\ (forall e, In e (lr_committed_entries lr) ->
+        ll_get (abs (r_log (rn_raft n))) (e_index e) = Some e
+        /\ e_index e <= apply_bound (r_log (rn_raft n))).
+Proof.
+  intros ([rw HI] & Hs & Hf) H.
+  destruct (handout_bound rw n n' lr HI Hs H) as (Hc & _ & Hin & _).
+  replace (N.max (rn_commit_since_index n + 1) (ll_first (abs (r_log (rn_raft n)))))
+    with (rn_commit_since_index n + 1) in Hc by lia.
+  split; [exact Hc|]. split.
+  - destruct (commit_since_monotone_light _ _ _ H) as (_ & A & B).
+    destruct (lr_committed_entries lr) as [|e t] eqn:E.
+    + rewrite A by reflexivity. cbn. lia.
+    + destruct (B ltac:(discriminate)) as [B1 _]. rewrite B1.
+      rewrite (last_map_index (e :: t)) by discriminate.
+      rewrite (contig_last (e :: t) _ 0 Hc ltac:(discriminate)). cbn [length]. lia.
+  - intros e He. destruct (Hin e He) as (_ & A & B & C). split; [exact C|].
+    unfold apply_bound.
+    pose proof (ri_commit rw _ HI). pose proof (ri_bound rw _ HI).
+    assert (e_index e < u64_max).
+    { pose proof (ri_commit rw _ HI). pose proof (ri_bound rw _ HI). lia. }
+    lia.
+Qed.
+
+(* the history variable: [fst h] = where hand-out (re)started (Config.applied, or
+   the last installed snapshot), [snd h] = every committed entry handed out since *)
+Definition hist := (N * list entry)%type.
+
+Definition hist_step (h : hist) (o : out) : hist :=
+  match fst o with
+  | Some i => (i, snd o)
+  | None => (fst h, snd h ++ snd o)
+  end.
+
+(* exactly the indexes start+1 .. commit_since_index, in order: no gap, no
+   duplicate, no reordering *)
+Definition Hist (n : rawnode) (h : hist) : Prop :=
+  contiguous_from (fst h + 1) (snd h)
+  /\ rn_commit_since_index n = fst h + N.of_nat (length (snd h)).
+
+Definition op_pre (n : rawnode) (o : op) : Prop :=
+  match o with
+  | OReady => handout_pre (r_log (rn_raft n)) (ready_since n)
+  | OAdvance rd | OAdvanceAppend rd =>
+      forall n1 n2, commit_ready n rd = Ok n1 ->
+                    rn_on_persist_ready n1 (rn_max_number n1) = Ok n2 ->
+                    handout_pre (r_log (rn_raft n2)) (rn_commit_since_index n2)
+  | _ => True
+  end.
+
+Lemma Hist_extend n n' h ce :
+  Hist n h ->
+  contiguous_from (rn_commit_since_index n + 1) ce ->
+  rn_commit_since_index n' = rn_commit_since_index n + N.of_nat (length ce) ->
+  Hist n' (fst h, snd h ++ ce).
+Proof.
+  intros [H1 H2] Hc Hn. split; cbn [fst snd].
+  - apply contig_app; [exact H1|].
+    replace (fst h + 1 + N.of_nat (length (snd h))) with (rn_commit_since_index n + 1) by lia.
+    exact Hc.
+  - rewrite app_length. lia.
+Qed.
+
+Lemma advance_append_handout n rd n' light :
+  op_pre n (OAdvanceAppend rd) ->
+  rn_advance_append n rd = Ok (n', light) ->
+  contiguous_from (rn_commit_since_index n + 1) (lr_committed_entries light)
+  /\ rn_commit_since_index n' = rn_commit_since_index n + N.of_nat (length (lr_committed_entries light)).
+Proof.
+  intros Hpre H. destruct (rn_advance_append_inv _ _ _ _ H)
+    as (n1 & n2 & n3 & lr & H1 & H2 & H3 & _ & _ & _ & _ & Hn' & Hl).
+  specialize (Hpre n1 n2 H1 H2).
+  destruct (handout_step _ _ _ Hpre H3) as (A & B & _).
+  pose proof (commit_ready_csi _ _ _ H1) as C1. pose proof (on_persist_ready_csi _ _ _ H2) as C2.
+  subst n' light. cbn [lr_committed_entries]. rewrite C2, C1 in *. split; [exact A|exact B].
+Qed.
+
+Theorem handout_exec n h o n' ot :
+  Hist n h -> op_pre n o -> exec n o = Ok (n', ot) -> Hist n' (hist_step h ot).
+Proof.
+  intros HH Hpre H.
+  destruct o;
+    try (match type of H with exec _ ?o = _ =>
+           destruct (quiet_ops_csi n o n' ot I H) as [-> E] end;
+         unfold hist_step, no_out; cbn [fst snd]; rewrite app_nil_r;
+         destruct HH as [H1 H2]; split; [exact H1|rewrite E; exact H2]).
+  - (* ready *)
+    cbn [exec] in H. inv_bind H. destruct x as [n1 rd]. cbn [fst snd] in H.
+    inversion H; subst n' ot; clear H. cbn [op_pre] in Hpre.
+    destruct (rn_ready_inv _ _ _ Hx) as (recs & snap & csi & rec_snap & ms2 & n2 & light
+      & Hrec & Hsnap & Hgl & Hn' & Hrd).
+    assert (Hcsi : csi = ready_since n).
+    { unfold ready_snap in Hsnap. unfold ready_since.
+      destruct (u_snapshot (unst (r_log (rn_raft n)))); [|inversion Hsnap; reflexivity].
+      destruct Hsnap as (_ & _ & E). inversion E; reflexivity. }
+    subst csi.
+    pose proof (fun P => handout_step _ _ _ P Hgl) as HS.
+    destruct (HS Hpre) as (A & B & _). clear HS.
+    cbn in A, B.
+    assert (Hl : rd_light rd = light) by (subst rd; reflexivity).
+    assert (Hc' : rn_commit_since_index n1 = rn_commit_since_index n2) by (subst n1; reflexivity).
+    rewrite Hl.
+    destruct (rn_ready_light _ _ _ Hx) as (oe & k & Hle & _ & Hl2 & _ & _ & Hsn & _).
+    rewrite Hl in Hl2.
+    assert (Hs5 : rd_snapshot rd = match u_snapshot (unst (r_log (rn_raft n))) with
+                                   | Some s => s | None => snap_default end).
+    { apply (ready_entries_are_unstable _ _ _ Hx). }
+    rewrite Hs5. unfold ready_since in *.
+    destruct (u_snapshot (unst (r_log (rn_raft n)))) as [s|] eqn:Es.
+    + assert (Hce : lr_committed_entries light = []).
+      { rewrite Hl2. cbn. apply Hsn. eauto. }
+      rewrite Hce in *. cbn [length] in B.
+      destruct (s_index s =? 0) eqn:E0; unfold hist_step; cbn [fst snd].
+      * rewrite app_nil_r. destruct HH as [H1 H2]. split; [exact H1|].
+        cbn [fst snd]. rewrite Hc', B, <- H2. clear - E0 Hle. lia.
+      * split; [exact I|]. cbn [fst snd length]. rewrite Hc', B. reflexivity.
+    + cbn [snap_default s_index]. change (0 =? 0) with true. unfold hist_step. cbn [fst snd].
+      eapply Hist_extend; [exact HH|exact A|rewrite Hc'; exact B].
+  - (* advance *)
+    cbn [exec] in H. inv_bind H. destruct x as [n1 lr]. cbn [fst snd] in H.
+    inversion H; subst n' ot; clear H.
+    unfold rn_advance in Hx. inv_bind Hx. destruct x as [n2 lr2]. cbn [fst snd] in Hx.
+    inv_bind Hx. inversion Hx; subst x lr2; clear Hx.
+    destruct (advance_append_handout _ _ _ _ Hpre Hx0) as [A B].
+    unfold hist_step. cbn [fst snd].
+    eapply Hist_extend; [exact HH|exact A|].
+    unfold rn_advance_apply_to in Hx1. rewrite (lift_csi _ _ _ Hx1). exact B.
+  - (* advance_append *)
+    cbn [exec] in H. inv_bind H. destruct x as [n1 lr]. cbn [fst snd] in H.
+    inversion H; subst n' ot; clear H.
+    destruct (advance_append_handout _ _ _ _ Hpre Hx) as [A B].
+    unfold hist_step. cbn [fst snd].
+    eapply Hist_extend; [exact HH|exact A|exact B].
+Qed.
+
+(* any sequence of calls *)
+Inductive run : rawnode -> hist -> rawnode -> hist -> Prop :=
+| run_nil n h : run n h n h
+| run_cons n h o n1 ot n' h' :
+    op_pre n o -> exec n o = Ok (n1, ot) -> run n1 (hist_step h ot) n' h' -> run n h n' h'.
+
+Theorem handout_contiguous n h n' h' : Hist n h -> run n h n' h' -> Hist n' h'.
+Proof.
+  intros HH R. induction R as [|n h o n1 ot n' h' Hp He R IH]; [exact HH|].
+  apply IH. eapply handout_exec; eassumption.
+Qed.
+
+(* at construction hand-out starts right after Config.applied *)
+Theorem handout_init c st sa dr n :
+  rn_new c st sa dr = Ok (inr n) -> Hist n (c_applied c, []).
+Proof.
+  unfold rn_new. destruct (c_id c =? 0); [discriminate|].
+  intros H. inv_bind H. destruct x as [e|r]; inversion H; subst.
+  split; cbn; [exact I|lia].
+Qed.
